@@ -25,7 +25,7 @@ func init() {
 			"D5 window loops of the dense read paths (ForEach, Bins, Encode, encodeSparsely) cover minIndex…maxIndex inclusive (ToProto/EncodeProto/encodeDensely/Reweight are checked by C09/C06/C16). "+
 			"D6 the window-moving primitives of the dense store as linear forms — shiftCounts copies bins[min−off … max−off] to +shift, resets exactly the vacated slots for either sign of the shift and updates offset −= shift; resetBins zeroes bins[from−off … to−off]; centerCounts stores the new window and shifts by offset + len/2 − (newMin + (newMax−newMin+1)/2); truncating integer division is only applied to widths and lengths. "+
 			"D9 page table of the paginated store — the slice of pages and the index of its first page are written only by the page accessor (resolved by role, with the helpers split off it), by Clear, or into a fresh object; elements of a page obtained from the accessor are touched only on paths that created the page (ensureExists is the constant true) or established by its length that it is not empty (Clear keeps emptied slots: a nil test is not enough). "+
-			"SHARED (obligations of other properties that decide clauses this property states too, re-evaluated here under their home rule ids): for DenseStore, SparseStore and BufferedPaginatedStore only — C05-D8 for DenseStore.extendRange (the new window contains the requested range and, on a non-empty store, the old window: bounds are min / max of requested and current). C01-D3 as C04-D7 (rank lookup: first index whose cumulative weight strictly exceeds the rank, buffer sorted first), C02-D2/D3/D4 (merge from any store kind, argument neither written nor captured, cached total and window follow), C14-D2 (Copy defines every field, deep), C15-D1 (Clear covers every written field), C16-D2 (Reweight scales everything held). C13-D3 for the stores' Reweight (a factor ≤ 0 is refused with nothing written: no weightless bins are left behind). C09-D3 for the MergeWithProto loops (every bin of a message is added at its own index). "+
+			"SHARED (obligations of other properties that decide clauses this property states too, re-evaluated here under their home rule ids): for DenseStore, SparseStore and BufferedPaginatedStore only — C05-D8 for DenseStore.extendRange (the new window contains the requested range and, on a non-empty store, the old window: bounds are min / max of requested and current). C01-D3 as C04-D7 (rank lookup: first index whose cumulative weight strictly exceeds the rank, buffer sorted first), C02-D2/D3/D4 (merge from any store kind, argument neither written nor captured, cached total and window follow), C14-D2 (Copy defines every field, deep), C15-D1 (Clear covers every written field), C16-D2 (Reweight scales everything held). C13-D3 for the stores' Reweight (a factor ≤ 0 is refused with nothing written: no weightless bins are left behind). C09-D3 for the MergeWithProto loops (every bin of a message is added at its own index). C06-D1 for the store encoders and decoders (writer and reader of each bin layout agree on the width of every field), C06-D2 (every delta read is accumulated), C08-D4 (exactly the announced number of items is read). "+
 			"NOT DECIDED: that weights are never lost, duplicated or misattributed by normalize/extendRange/shiftCounts/page()/compact() — value statements about counts.",
 		"one obligation per store × entry point, per fold site, per callback call site, per window loop, per twin path",
 		false, runC04)
@@ -79,6 +79,11 @@ func runC04(c *Ctx) {
 	c.shared(func() { c13Reweight(c, a) }, func(o *Obligation) bool { return notCollapsing(o) && strings.Contains(o.Key, "/store.") })
 	// additions "as bins" also arrive through protobuf messages: the rebuild loops add every bin at its own index
 	c.shared(func() { c09Rebuild(c, a) }, keyMentions("MergeWithProto"))
+	// … and through the binary encoding: the store encoders and decoders agree on the layout of each bin block (width of
+	// every field), every reader accumulates every delta it reads, and reads exactly the announced number of items
+	c.shared(func() { wireGrammarRules(c, a, "C06-D1") }, keyMentions("ddsketch/store."))
+	c.shared(func() { c06Deltas(c, a) }, func(o *Obligation) bool { return true })
+	c.shared(func() { c08ItemLoops(c, a) }, func(o *Obligation) bool { return true })
 	dense := c.P.NamedType(pkgStore, "DenseStore")
 	for _, t := range impls {
 		if n := t.Obj().Name(); n == "DenseStore" || n == "SparseStore" || t == pr.typ {
@@ -1420,6 +1425,62 @@ func c04PageUse(c *Ctx, pr *paginatedRoles, rule string) {
 				return
 			}
 			nAcc++
+			// the line belongs to the page: an element page(P)[x & mask] is the bin of index x only when P is the page of
+			// that same x (x >> log2 — a division rounds the other way for negative indexes), or the path has compared
+			// the page of x with P; reported when P is computed from x in another way
+			recvFld := func(t *Term) bool {
+				t = stripVers(t)
+				return t.Op == "field" && len(t.Args) == 1 && stripVers(t.Args[0]).isParam(0)
+			}
+			lineForm := func(t *Term) *Term {
+				t = stripConv(stripVers(t))
+				if t.isBin("&") {
+					for i := 0; i < 2; i++ {
+						if recvFld(t.Args[i]) {
+							return stripConv(stripVers(t.Args[1-i]))
+						}
+					}
+				}
+				return nil
+			}
+			pageForm := func(t *Term) *Term {
+				t = stripConv(stripVers(t))
+				if t.isBin(">>") && recvFld(t.Args[1]) {
+					return stripConv(stripVers(t.Args[0]))
+				}
+				return nil
+			}
+			if xl := lineForm(addr.Args[1]); xl != nil {
+				okPair := false
+				pT := stripConv(stripVers(pg.Args[1]))
+				if xp := pageForm(pT); xp != nil && stripVers(xp).Key() == stripVers(xl).Key() {
+					okPair = true
+				}
+				for _, cd := range p.Conds {
+					t := cd.Term
+					if okPair || !t.isBin("==") || !cd.Taken {
+						continue
+					}
+					for i := 0; i < 2; i++ {
+						if xp := pageForm(t.Args[i]); xp != nil && stripVers(xp).Key() == stripVers(xl).Key() && stripConv(stripVers(t.Args[1-i])).Key() == pT.Key() {
+							okPair = true
+						}
+					}
+				}
+				// decided only when the page argument is computed from that very index (a grouped loop that walks the
+				// indexes of one page relates them by comparisons this rule does not follow)
+				mentions := false
+				pT.walk(func(y *Term) bool {
+					if stripVers(y).Key() == stripVers(xl).Key() {
+						mentions = true
+					}
+					return true
+				})
+				if !okPair && mentions {
+					bad = "the line of index " + xl.Key() + " is touched on page " + pT.Key() + ", which is not known to be the page of that index: [" + pathSig(p) + "]"
+					return
+				}
+			}
 			if pg.Args[2].isConst("true") {
 				return
 			}
